@@ -519,3 +519,43 @@ V("C02-reput-counts-again","C02",MB+"put.go","""		if _, typErr := fetchTypeForID
 		}
 ""","",rule="C02.R7")
 V("C02-tombstone-double-count","C02",MB+"put.go","if !bytes.Equal(k, garbageKey) && inGarbage(metaCursor, id) == statusAvailable {","if !bytes.Equal(k, nil) && inGarbage(metaCursor, id) == statusAvailable {",rule="C02.R5")
+
+# ---- C43
+SH="pkg/local_object_storage/shard/"
+V("C43-exists-no-lock","C43",SH+"exists.go","""	s.m.RLock()
+	defer s.m.RUnlock()
+""","",rule="C43.R3")
+V("C43-mode-before-components","C43",SH+"mode.go","""	for i := range components {
+		if err := components[i](m); err != nil {
+			return err
+		}
+	}
+
+	s.info.Mode = m""","""	s.info.Mode = m
+	for i := range components {
+		if err := components[i](m); err != nil {
+			return err
+		}
+	}
+""",rule="C43.R2")
+V("C43-component-error-ignored","C43",SH+"mode.go","""		if err := components[i](m); err != nil {
+			return err
+		}""","""		if err := components[i](m); err != nil {
+			s.log.Warn("component mode", zap.Error(err))
+		}""",rule="C43.R2")
+V("C43-skip-first-component","C43",SH+"mode.go","""	for i := range components {
+		if err := components[i](m); err != nil {""","""	for i := range components[1:] {
+		if err := components[i](m); err != nil {""",rule="C43.R2")
+V("C43-storage-always-rw","C43",SH+"mode.go","s.blobStor.Open(m.ReadOnly())","s.blobStor.Open(s.info.Mode.ReadOnly())",rule="C43.R5")
+V("C43-init-error-dropped","C43",SH+"mode.go","""			err = s.blobStor.Init(common.ID{})""","""			_ = s.blobStor.Init(common.ID{})""",rule="C43.R5")
+V("C43-mode-written-in-restore","C43",SH+"restore.go","""	var count, failCount int""","""	if ignoreErrors {
+		s.info.Mode = mode.ReadWrite
+	}
+	var count, failCount int""",rule="C43.R1",more=[{"file":SH+"restore.go","old":'"github.com/nspcc-dev/neofs-sdk-go/object"',"new":'"github.com/nspcc-dev/neofs-node/pkg/local_object_storage/shard/mode"\n\t"github.com/nspcc-dev/neofs-sdk-go/object"'}])
+V("C43-silent-setmode-err-var","C43",SH+"mode.go","""		if err := components[i](m); err != nil {
+			return err
+		}""","""		err := components[i](m)
+		if err == nil {
+			continue
+		}
+		return err""",expect="silent")
